@@ -712,6 +712,26 @@ func (g *c14Gen) craftedHellos(c *c14Run) {
 			body := c14Concat(chFixed(), c14V16(chCases[k]))
 			c.add("crafted-"+k, c14Input{Kind: "dec", Stack: stack, Msg: "clientHello", Data: c14Hdr(stack, 1, body)})
 		}
+		// malformed vectors of the fixed part (no extensions involved)
+		fixed := func(suites, comp []byte, sid []byte) []byte {
+			b := c14Concat([]byte{1, 1}, g.bytes(32), c14V8(sid))
+			if stack == "D" {
+				b = append(b, c14V8(g.bytes(g.r.IntN(4)))...)
+			}
+			return c14Concat(b, c14V16(suites), c14V8(comp))
+		}
+		for k, body := range map[string][]byte{
+			"reject-odd-suites":      fixed([]byte{0xe0, 0x13, 0xe0, 0x53, 0xe0}, []byte{0}, nil),
+			"reject-one-byte-suites": fixed([]byte{0xe0}, []byte{0}, nil),
+			"reject-empty-suites":    fixed(nil, []byte{0}, nil),
+			"reject-empty-comp":      fixed([]byte{0xe0, 0x13}, nil, nil),
+			"reject-long-sid":        fixed([]byte{0xe0, 0x13}, []byte{0}, g.bytes(33)),
+			"fixed-two-comp":         fixed([]byte{0xe0, 0x13}, []byte{1, 0}, nil),
+			"fixed-max-sid":          fixed([]byte{0xe0, 0x13}, []byte{0}, g.bytes(32)),
+		} {
+			c.add("crafted-"+k, c14Input{Kind: "dec", Stack: stack, Msg: "clientHello", Data: c14Hdr(stack, 1, body)})
+			c.add("crafted-"+k+"-exts", c14Input{Kind: "dec", Stack: stack, Msg: "clientHello", Data: c14Hdr(stack, 1, c14Concat(body, c14V16(curves(0, 41))))})
+		}
 		// a byte after the extension block, header consistent
 		c.add("crafted-trailing-after-exts", c14Input{Kind: "dec", Stack: stack, Msg: "clientHello",
 			Data: c14Hdr(stack, 1, c14Concat(chFixed(), c14V16(curves(0, 41)), []byte{0}))})
